@@ -150,8 +150,12 @@ class BlockSeries:
                     dimension_names=self.dimension_names,
                 )
 
+            # The orders are passed as slices of length one: integer orders would be
+            # advanced indices and could move the dimensions selected by lists in `item`.
             packed = BlockSeries(
-                eval=lambda *index: self[item + index].filled(zero),
+                eval=lambda *index: self[
+                    item + tuple(slice(order, order + 1) for order in index)
+                ].filled(zero)[(..., *(0,) * self.n_infinite)],
                 shape=(),
                 n_infinite=self.n_infinite,
             )
